@@ -31,6 +31,11 @@ func c07Run(c *fw.Ctx) {
 		if r.Intn(3) == 0 {
 			optv = 4 // minimizeDFA (optimizeTables is not combined here: deep lookahead uses the default encoding)
 		}
+		if i%5 == 0 {
+			// two states with look-alike first-level rows and different lookahead automata, minimized
+			pg = gram.LalrKTwin(r)
+			optv = 4
+		}
 		pg.Opts = tableOpts(optv)
 		return pg, optv, false
 	})
@@ -95,7 +100,7 @@ func c07Run(c *fw.Ctx) {
 func init() {
 	fw.Register(&fw.Check{
 		ID:          "C07",
-		Rule:        "each case: grammars from a family that needs k>1 tokens to resolve reduce/reduce conflicts (2-3 alternatives 'S: A_i mid tail_i' where all A_i derive the same string, mid is a shared sequence of 0..k-1 terminals / unit nonterminals / nullable nonterminals / two-token nonterminals, tails differ, sometimes only after a further reduction; optionally wrapped in a list or a no-eoi input) declared lalr(k), k in 2..8, plus random CFGs with lalr(2..4); grammars the compiler rejects are discarded; all token strings up to a length bound + sampled sentences + mutations are run through the generated parser and judged by an Earley recognizer (accept iff sentence, error token = first non-viable token). Grammar counts as non-trivial/distinct when the compiled tables report UsedLADepth>0 and both accepted and rejected inputs were observed",
+		Rule:        "each case (every fifth candidate is the twin-conflict member of the family - a second conflict with the same middle behind another prefix - compiled with minimizeDFA): grammars from a family that needs k>1 tokens to resolve reduce/reduce conflicts (2-3 alternatives 'S: A_i mid tail_i' where all A_i derive the same string, mid is a shared sequence of 0..k-1 terminals / unit nonterminals / nullable nonterminals / two-token nonterminals / nonterminals 't Opt' with a nullable suffix, tails differ, sometimes only after a further reduction; optionally wrapped in a list or a no-eoi input) declared lalr(k), k in 2..8, plus random CFGs with lalr(2..4); grammars the compiler rejects are discarded; all token strings up to a length bound + sampled sentences + mutations are run through the generated parser and judged by an Earley recognizer (accept iff sentence, error token = first non-viable token). Grammar counts as non-trivial/distinct when the compiled tables report UsedLADepth>0 and both accepted and rejected inputs were observed",
 		Assumptions: []string{"Earley recognizer is correct", "compile errors of the lalr(k) compiler are taken as 'does not claim to resolve'"},
 		Cases: func(tier string) int {
 			if tier == "thorough" {
